@@ -49,7 +49,7 @@ REQUIRED_CLAUSES = [
 ]
 REQUIRED_FEATURES = {
     "sa:canonical": 300, "sa:shuffled-clean": 50, "sa:bracket-in-last-sort": 50, "sa:later-sort-token": 100, "sa:space-before-colon": 30,
-    "sa:cfg:inner-hits-sorted": 20, "sa:cfg:top-hits-sorted": 20, "sa:cfg:source-sort-shuffled": 20, "sa:cfg:value-token": 20,
+    "sa:cfg:inner-hits-sorted": 20, "sa:cfg:top-hits-sorted": 20, "sa:cfg:source-sort-shuffled": 20, "sa:cfg:value-token": 20, "sa:cfg:fat-tail-after-last-sort": 10,
     "ca:canonical": 200, "ca:after-key-null": 50, "ca:float": 50, "ca:nested-path": 50,
     "bulk:canonical": 300, "bulk:errors": 100, "bulk:errors-false-but-failed-item": 50, "bulk:error-string": 20, "bulk:unit-not-docs": 20,
     "scroll:es6-total": 10, "big-response": 5, "layout:pretty": 100, "layout:compact": 1000, "order:shuffled": 300, "raw-utf8": 300,
@@ -685,6 +685,11 @@ def gen_case(rng, big_p=0.003):
         if prof == "clean":
             cfg.inner_hits, cfg.top_hits = rng.choice([0, 0, 1]), rng.choice([0, 0, 1])
             cfg.src_sort = case["order"] == "canonical" and rng.random() < 0.5  # harmless before the hit's own sort
+            if not big and case["order"] == "canonical" and rng.random() < 0.12:
+                cfg.fat_tail = rng.choice(["explanation", "aggs", "inner"])
+                if cfg.fat_tail == "inner":
+                    cfg.inner_hits = 0
+                case["hints"].append("fat-tail-after-last-sort")
         elif prof == "bracket":
             cfg.rb_in_sort = cfg.rb_last = True
         elif prof == "later":
